@@ -107,3 +107,120 @@ func TraceTail(op byte) int {
 	}
 	return 70
 }
+
+// ---- operand field of a cpu65c816 trace line ----
+// The operand of an instruction is shown in the assembler notation of its addressing mode: the operand bytes as
+// hex digits, most significant first, inside the brackets / with the index suffix of the mode; immediates by the
+// width in force; relative branches as the operand and the 16-bit target; PER / BRL as the target. The
+// punctuation style (", X", "Sn") is layout knowledge of this tracer. Template digits stand for hex digits:
+// 1 2 = operand byte 1 (high, low nibble), 3 4 = byte 2, 5 6 = byte 3, 7 8 9 0 = the four digits of the target.
+
+// TraceOperandWidth is the width of the operand field (see TraceTail).
+func TraceOperandWidth(op byte) int {
+	if Tab[op].Mode == mSR {
+		return 11
+	}
+	return 13
+}
+
+func fillOperand(t string, k int, w1, w2, w3 byte, tgt uint16) byte {
+	const hex = "0123456789abcdef"
+	if k >= len(t) {
+		return ' '
+	}
+	switch t[k] {
+	case '1':
+		return hex[w1>>4]
+	case '2':
+		return hex[w1&15]
+	case '3':
+		return hex[w2>>4]
+	case '4':
+		return hex[w2&15]
+	case '5':
+		return hex[w3>>4]
+	case '6':
+		return hex[w3&15]
+	case '7':
+		return hex[tgt>>12]
+	case '8':
+		return hex[tgt>>8&15]
+	case '9':
+		return hex[tgt>>4&15]
+	case '0':
+		return hex[tgt&15]
+	}
+	return t[k]
+}
+
+// TraceOperandChar is column k (0-based) of the operand field for opcode op with operand bytes w1 w2 w3 (the bytes
+// following the opcode), wide = a width-dependent immediate is 16 bits now, pc = address of the opcode.
+func TraceOperandChar(op byte, wide bool, k int, w1, w2, w3 byte, pc uint16) byte {
+	if Tab[op].Ins == iBRK {
+		// WDC lists BRK among the stack / interrupt instructions and writes it without an operand; the
+		// signature byte appears in the byte column only
+		return ' '
+	}
+	switch Tab[op].Mode {
+	case mIMP:
+		return ' '
+	case mACC:
+		return fillOperand("A", k, w1, w2, w3, 0)
+	case mIMM8:
+		return fillOperand("#$12", k, w1, w2, w3, 0)
+	case mIMMM, mIMMX:
+		if wide {
+			return fillOperand("#$3412", k, w1, w2, w3, 0)
+		}
+		return fillOperand("#$12", k, w1, w2, w3, 0)
+	case mIMM16:
+		return fillOperand("#$3412", k, w1, w2, w3, 0)
+	case mABS, mABSJ:
+		return fillOperand("$3412", k, w1, w2, w3, 0)
+	case mABSX:
+		return fillOperand("$3412, X", k, w1, w2, w3, 0)
+	case mABSY:
+		return fillOperand("$3412, Y", k, w1, w2, w3, 0)
+	case mLONG, mLONGJ:
+		return fillOperand("$563412", k, w1, w2, w3, 0)
+	case mLONGX:
+		return fillOperand("$563412, X", k, w1, w2, w3, 0)
+	case mDP:
+		return fillOperand("$12", k, w1, w2, w3, 0)
+	case mDPX:
+		return fillOperand("$12, X", k, w1, w2, w3, 0)
+	case mDPY:
+		return fillOperand("$12, Y", k, w1, w2, w3, 0)
+	case mIDP:
+		return fillOperand("($12)", k, w1, w2, w3, 0)
+	case mIDPX:
+		return fillOperand("($12, X)", k, w1, w2, w3, 0)
+	case mIDPY:
+		return fillOperand("($12), Y", k, w1, w2, w3, 0)
+	case mILDP:
+		return fillOperand("[$12]", k, w1, w2, w3, 0)
+	case mILDPY:
+		return fillOperand("[$12], Y", k, w1, w2, w3, 0)
+	case mSR:
+		return fillOperand("$12, Sn", k, w1, w2, w3, 0)
+	case mISRY:
+		return fillOperand("($12, Sn), Y", k, w1, w2, w3, 0)
+	case mREL8:
+		tgt := pc + 2 + uint16(int16(int8(w1)))
+		if w1 >= 0x80 {
+			return fillOperand("$12 ($7890 -)", k, w1, w2, w3, tgt)
+		}
+		return fillOperand("$12 ($7890 +)", k, w1, w2, w3, tgt)
+	case mREL16:
+		return fillOperand("$7890", k, w1, w2, w3, pc+3+(uint16(w2)<<8|uint16(w1)))
+	case mIABS:
+		return fillOperand("($3412)", k, w1, w2, w3, 0)
+	case mIABSX:
+		return fillOperand("($3412, X)", k, w1, w2, w3, 0)
+	case mILABS:
+		return fillOperand("[$3412]", k, w1, w2, w3, 0)
+	case mBLK:
+		return fillOperand("#$34,#$12", k, w1, w2, w3, 0)
+	}
+	return '?'
+}
